@@ -8,6 +8,7 @@ pub mod crash;
 pub mod fs;
 pub mod report;
 pub mod run;
+pub mod sched;
 
 pub use fs::*;
 pub use report::*;
@@ -129,7 +130,7 @@ where
         .collect();
     let done = AtomicBool::new(false);
     let t0 = Instant::now();
-    let hang_limit = ctx.hang_limit;
+    let hang_limit = Duration::from_secs(ctx.hang_limit_s.load(Ordering::Relaxed));
     std::thread::scope(|s| {
         let mut handles = Vec::new();
         for w in 0..nw {
@@ -251,7 +252,7 @@ pub fn run_isolated(ctx: &Ctx, sub: &str, ordinal: u64, cases: &[(u64, String)])
 pub fn fresh_thread<T: Send, F: FnOnce() -> T + Send>(f: F) -> T {
     std::thread::scope(|s| {
         std::thread::Builder::new()
-            .stack_size(64 << 20)
+            .stack_size(16 << 20)
             .spawn_scoped(s, f)
             .expect("spawn")
             .join()
